@@ -210,10 +210,32 @@ def literal_values():
     return guarded("literal", run)
 
 
+def int_helper():
+    """INT is translated to a call of the bundled ecb_int: for every argument it must return Color BASIC's INT, the largest
+    whole number not above the argument (bounded stand-in: the real BASIC09 text is evaluated on a grid)"""
+    def run():
+        import math
+        from tx import b09mini, ecbsig
+        proc = b09mini.load(ecbsig.library_text(), "ecb_int")
+        grid = [float(k) for k in range(-40, 41)] + [k + f for k in range(-40, 40) for f in (0.25, 0.5, 0.999, 0.001)] + [-32768.0, -32767.5, 32767.5, 65535.0, -65536.0, 1e6 + 0.5, -1e6 - 0.5]
+        bad = []
+        for v in grid:
+            try:
+                got = proc.run(v, 99.0)[1]
+            except Exception as e:  # noqa
+                got = "%s: %s" % (type(e).__name__, e)
+            if got != float(math.floor(v)):
+                bad.append(dict(argument=v, expected=float(math.floor(v)), got=got))
+        return [ob("helpers/ecb_int is Color BASIC's INT", not bad, "floor(v)", bad[:4] or "%d arguments" % len(grid),
+                   bounded="%d arguments: all whole numbers -40..40, four fractions between each, extremes" % len(grid))]
+    return guarded("helpers/ecb_int", run)
+
+
 _c01_base = obligations
 
 
 def obligations():  # noqa: F811
     # a value computed by a hoisted call reaches the expression through its temporary: temporaries of one statement are distinct
     from tx.p_c05 import temp_sequences
-    return _c01_base() + literal_values() + temp_sequences()
+    from tx.p_c02 import condition_coercion
+    return _c01_base() + literal_values() + temp_sequences() + condition_coercion() + int_helper()
